@@ -558,6 +558,7 @@ let run_project (args : sx list) : sx =
            | Ok ms -> sx_result (fun js -> L (List.map sx_json js)) (select e re_full_oracle re_search_oracle st rqs ms) in
          let mnodes = query_nodes re_full_oracle re_search_oracle e.e_keys mq d (JObj []) in
          let ok = ref (ext_query mq && List.for_all ext_query rqs) in
+         let ok2 = ref !ok in
          let spec =
            List.concat (List.map (fun (ml, mv) ->
              match mv with
@@ -565,13 +566,15 @@ let run_project (args : sx list) : sx =
                  let sel_nodes = List.concat (List.map (fun rq -> query_nodes re_full_oracle re_search_oracle e.e_keys rq mv (JObj [])) rqs) in
                  let locs = List.map fst sel_nodes in
                  if not (selections_ok locs) then ok := false;
+                 if not (keys_only locs && (st <> ProjRoot || ml = [] || keys_only [ml])) then ok2 := false;
                  let r = (match st with
                           | ProjFlat -> project_flat (List.map snd sel_nodes)
                           | ProjRelative -> project_tree mv locs
                           | ProjRoot -> project_root d ml locs) in
                  (match r with Some j -> [j] | None -> [])
              | _ -> []) mnodes) in
-         L [A "ok"; model; L (List.map sx_json spec); L [A "domain"; sx_bool !ok]; L [A "wf"; sx_bool (wf_json d)]]
+         L [A "ok"; model; L (List.map sx_json spec); L [A "domain"; sx_bool !ok]; L [A "wf"; sx_bool (wf_json d)];
+            L [A "search-domain"; sx_bool !ok2]]
        with Unsupported_case w -> L [A "unsupported"; A w])
   | _ -> failwith "project: bad args"
 
